@@ -205,7 +205,19 @@ def check(ctx):
     targ = unparse(next(c for n in chn for c in calls_in(n.ast) if call_name(c) == "os.chdir").args[0]) if chn else None
     okv = any(isinstance(w.ast.targets[0], ast.Subscript) and const_value(w.ast.targets[0].slice) == "PWD" and unparse(w.ast.value) == targ for w in wr)
     ctx.ob("R1", f"{DS}:_change_working_directory", "$PWD receives exactly the path handed to os.chdir", okv, key="cwd|pwd-value", where=loc(cw))
-    oko = any(const_value(w.ast.targets[0].slice) == "OLDPWD" and unparse(w.ast.value) == "old" for w in wr if isinstance(w.ast.targets[0], ast.Subscript))
+    # "the previous $PWD": a local whose only definition reads <env>["PWD"] before the chdir
+    cdefs_ = df.all_defs(cw)
+
+    def prev_pwd(e):
+        ds = cdefs_.get(e.id, []) if isinstance(e, ast.Name) else []
+        if len(ds) != 1 or ds[0].kind != "assign":
+            return False
+        v = ds[0].value
+        reads_pwd = (isinstance(v, ast.Subscript) and const_value(v.slice) == "PWD") or (isinstance(v, ast.Call) and last_attr(v) == "get" and v.args and const_value(v.args[0]) == "PWD")
+        dn = ccfg.nodes_of(ds[0].stmt)
+        return reads_pwd and bool(dn) and all(ccfg.dominated(c_, lambda m_: m_ in dn) for c_ in chn)
+
+    oko = any(const_value(w.ast.targets[0].slice) == "OLDPWD" and prev_pwd(w.ast.value) for w in wr if isinstance(w.ast.targets[0], ast.Subscript))
     ctx.ob("R1", f"{DS}:_change_working_directory", "$OLDPWD receives the previous $PWD", oko, key="cwd|oldpwd-value", where=loc(cw))
 
     # ------------------------------------------------------------------ R2 / R3 / R4
